@@ -198,7 +198,6 @@ func firstLines(s string, n int) string {
 	return strings.Join(ls, " | ")
 }
 
-func cmdCheck(args []string) int   { fmt.Println("not implemented"); return 2 }
 func cmdReplay(args []string) int  { fmt.Println("not implemented"); return 2 }
 func cmdSelftest(args []string) int { fmt.Println("not implemented"); return 2 }
 
